@@ -11,6 +11,7 @@ import (
 	"testing"
 	"time"
 
+	"github.com/EliCDavis/polyform/math/sample"
 	"github.com/EliCDavis/polyform/modeling"
 	"github.com/EliCDavis/polyform/modeling/marching"
 	"github.com/EliCDavis/vector/vector2"
@@ -256,6 +257,9 @@ type MarchCase struct {
 	End    [3]float64
 	Cut    float64
 	Reps   int
+	// Extra: further Float1 functions of the field besides the one that is marched (a field is a set
+	// of named functions; AddField samples all of them, so must the parallel variants)
+	Extra int `json:",omitempty"`
 }
 
 func genMarch(t *rapid.T) MarchCase {
@@ -273,6 +277,7 @@ func genMarch(t *rapid.T) MarchCase {
 		c.Box[i] = rapid.Float64Range(3, 8).Draw(t, "box")
 		c.End[i] = rapid.Float64Range(-6, 6).Draw(t, "end")
 	}
+	c.Extra = rapid.SampledFrom([]int{0, 0, 1, 2}).Draw(t, "extraAttributes")
 	return c
 }
 
@@ -335,6 +340,18 @@ func runMarch(c MarchCase, o *vh.Obs) *vh.Failure {
 		marching.Box(ctr.Add(vector3.New(4*cell, 1*cell, 0)), vector3.New(c.Box[0], c.Box[1], c.Box[2]).Scale(cell), 1),
 		marching.Line(ctr, end, 2.5*cell, 1),
 	)
+	if c.Extra > 0 { // cheap functions: their jobs finish before the distance field's
+		fns := map[string]sample.Vec3ToFloat{}
+		for k, f := range field.Float1Functions {
+			fns[k] = f
+		}
+		fns["temperature"] = func(p vector3.Float64) float64 { return p.X() + 2*p.Y() }
+		if c.Extra > 1 {
+			fns["density"] = func(p vector3.Float64) float64 { return 1 }
+		}
+		field = marching.Field{Domain: field.Domain, Float1Functions: fns, Float2Functions: field.Float2Functions, Float3Functions: field.Float3Functions}
+		o.Class(fmt.Sprintf("marching/float1-functions=%d", len(fns)))
+	}
 	cutoff := -c.Cut * cell
 	blocks := 1
 	for i := 0; i < 3; i++ {
@@ -457,7 +474,7 @@ func runBlocks(c BlocksCase, o *vh.Obs) *vh.Failure {
 
 func TestC10(t *testing.T) {
 	vh.Drive(t, vh.Spec[ScanCase]{Name: "scan-modify", Quick: 4000, Thorough: 120000, Gen: genScan, Run: runScan})
-	vh.Drive(t, vh.Spec[MarchCase]{Name: "marching", Quick: 8, Thorough: 320, Gen: genMarch, Run: runMarch})
+	vh.Drive(t, vh.Spec[MarchCase]{Name: "marching", Quick: 8, Thorough: 320, Gen: genMarch, Run: runMarch, Deadline: 3 * time.Minute})
 	if vh.Tier == "thorough" || vh.Replay != "" {
 		// 20+ blocks of 8 MB and 10^6 cube visits each under the race detector: minutes per case
 		vh.Enumerate(t, vh.Spec[BlocksCase]{Name: "marching-blocks", Run: runBlocks, Deadline: 15 * time.Minute},
